@@ -241,7 +241,7 @@ def cleanUp (s : St) : St :=
 def toolRows (t : Tool) (n : Nat) : List (Nat × Nat) :=
   let rows := (List.range n).map fun i => (i, i)
   match t with
-  | .reorder => rows.reverse
+  | .reorder => rows.drop 1 ++ rows.take 1      -- rotation (not an involution for n ≥ 3)
   | .garbageMissing => rows.take (n - 1)
   | .garbageEmpty => []
   | _ => rows
